@@ -374,6 +374,16 @@ class Generator:
                             break
                     if depth != 0:
                         raise Undecided(f"{f.id}: rewrite {rw['rule']}: wildcard ${gname[1:]} captured bracket-unbalanced text")
+                    # ... and, unless it stands for the whole contents of a `{ $n }` block in the pattern, it may not run over a
+                    # statement boundary (a `;` outside brackets): `= $1.into_iter()` must not swallow the statement before it
+                    pm = re.search(r'(\S)\s*\$' + gname[1:] + r'\s*(\S)?', old)
+                    whole_block = bool(pm and pm.group(1) == '{' and pm.group(2) == '}')
+                    if not whole_block:
+                        depth = 0
+                        for ch in blank(cap or ''):
+                            depth += (ch in '([{') - (ch in ')]}')
+                            if ch == ';' and depth == 0:
+                                raise Undecided(f"{f.id}: rewrite {rw['rule']}: wildcard ${gname[1:]} would capture text across a statement boundary")
             text = rx.sub(lambda m: re.sub(r'\$(\d)', lambda g: m.group('g' + g.group(1)), new), text)
             bump(rw['rule'], len(hits))
         return text
